@@ -33,6 +33,14 @@ def load_variants(pid):
         with open(p) as fh:
             for v in json.load(fh)["variants"]:
                 out.append(v)
+    rv = os.path.join(VERIF, "selftest", "reverts")
+    if os.path.isdir(rv):
+        for f in sorted(os.listdir(rv)):
+            if f.startswith(pid + "-") and f.endswith(".diff"):
+                # a repaired defect put back: the rule that found it must
+                # fire again (a `fixed:` entry suppresses nothing)
+                out.append({"name": "revert:" + f[:-5], "kind": "mutant",
+                            "patch": os.path.join(rv, f), "expect": []})
     sd = os.path.join(VERIF, "seeded")
     if os.path.isdir(sd):
         for d in sorted(os.listdir(sd)):
